@@ -13,6 +13,7 @@ pub mod c16_fmtmodel;
 pub mod c12;
 pub mod c12_more;
 pub mod c20;
+pub mod c20_more;
 pub mod c06;
 pub mod c09;
 pub mod c09_header;
